@@ -41,7 +41,9 @@ MANIFEST = {
 }
 RULE = (
     'history stage: Hypothesis lists (1-8 ops) of build(spec from the C01 or '
-    'C02 generator, optional fault: graph function raises ValueError/KeyError/'
+    'C02 generator or an EnvGen definition whose envelope arguments (C19 '
+    'generators) are long-lived list objects shared by every build of that '
+    'spec, optional fault: graph function raises ValueError/KeyError/'
     'custom Exception/custom BaseException at node k, control signal into an '
     'audio output, constant beyond float32, name of 300 chars), SynthDesc '
     'read-back of an earlier build, unit created outside any build, and '
@@ -128,10 +130,25 @@ def reference(gen, spec):
     return outs
 
 
+ENV_BUILDERS = {}     # per history: spec text -> Builder (long-lived lists)
+
+
 def builder_for(op):
-    cls = G.Builder if op['gen'] == 'c01' else mcgen.Builder
     spec = op['spec']
     fault = op.get('fault')
+    if op['gen'] == 'env':
+        # the same argument objects every time this spec is built
+        key = json.dumps(spec, sort_keys=True)
+        if key not in ENV_BUILDERS:
+            from vlib import envdef
+            ENV_BUILDERS[key] = envdef.Builder(spec)
+        b = ENV_BUILDERS[key]
+        b.fail_at, b.fail_exc = None, None
+        if fault and fault['kind'] == 'func':
+            b.fail_at = fault['at'] % 2
+            b.fail_exc = EXC[fault['exc']]('injected')
+        return b
+    cls = G.Builder if op['gen'] == 'c01' else mcgen.Builder
     if fault and fault['kind'] == 'func':
         at = fault['at'] % (len(spec['nodes']) + 1)
         return cls(spec, fail_at=at, fail_exc=EXC[fault['exc']]('injected'))
@@ -185,6 +202,7 @@ def build_once(op, v, where):
 
 
 def run_history(case, v):
+    ENV_BUILDERS.clear()
     outside = []
     built = []          # (gen, spec, bytes)
     labels = set()
@@ -196,6 +214,11 @@ def run_history(case, v):
         if op['op'] == 'build':
             key = json.dumps(op['spec'], sort_keys=True)
             fault = op.get('fault')
+            if op['gen'] == 'env':
+                e = op['spec']['env']
+                labels.add('envdef_' + e.get('ctor', 'Env'))
+                if key in seen_specs:
+                    labels.add('envdef_same_objects_again')
             data = build_once(op, v, where)
             residue(v, where)
             if fault is not None:
@@ -315,10 +338,15 @@ def run_history(case, v):
 
 
 def build_op(max_steps):
+    from checks import c19
+    envs = st.tuples(st.one_of(c19.ctor_case(), c19.env_spec(plain=True)),
+                     st.sampled_from(['kr', 'ar'])).map(
+        lambda t: ('env', {'name': 'envdef', 'rate': t[1], 'env': t[0]}))
     spec = st.one_of(
         graphgen.graph_spec(max_steps=max_steps).map(
             lambda s: ('c01', s)),
-        mcgen.mc_spec(max_steps=max_steps).map(lambda s: ('mc', s)))
+        mcgen.mc_spec(max_steps=max_steps).map(lambda s: ('mc', s)),
+        envs)
     fault = st.one_of(
         st.none(), st.none(),
         st.fixed_dictionaries({
@@ -326,9 +354,12 @@ def build_op(max_steps):
             'exc': st.sampled_from(sorted(EXC))}),
         st.fixed_dictionaries({'kind': st.sampled_from(
             ['input', 'const_overflow', 'name_long'])}))
-    return st.tuples(spec, fault).map(
-        lambda t: {'op': 'build', 'gen': t[0][0], 'spec': t[0][1],
-                   'fault': t[1]})
+    def mk(t):
+        (gen, spec), fault = t
+        if gen == 'env' and fault and fault['kind'] != 'func':
+            fault = None
+        return {'op': 'build', 'gen': gen, 'spec': spec, 'fault': fault}
+    return st.tuples(spec, fault).map(mk)
 
 
 def history_strategy(max_steps=10):
@@ -351,8 +382,36 @@ def history_strategy(max_steps=10):
         builds = [o for o in ops if o['op'] == 'build' and not o.get('fault')]
         if builds and len(ops) % 2 == 0:
             out.append(builds[0])
+        # definitions that hand over long-lived argument objects are built
+        # again with the same objects
+        out += [o for o in builds if o['gen'] == 'env']
         return out
     return st.lists(op, min_size=1, max_size=7).map(with_repeats)
+
+
+def env_history():
+    """Histories of definitions that share long-lived argument objects:
+    every envelope constructor, each definition built two or three times
+    (a failing build of the same function may come in between)."""
+    from checks import c19
+    one = st.tuples(st.one_of(c19.ctor_case(), c19.ctor_case(),
+                              c19.env_spec(plain=True)),
+                    st.sampled_from(['kr', 'ar']),
+                    st.sampled_from([None, None, 'ValueError', 'CustomBase']),
+                    st.integers(2, 3))
+
+    def mk(items):
+        ops = []
+        for n, (env, rate, exc, times) in enumerate(items):
+            spec = {'name': f'envdef{n}', 'rate': rate, 'env': env}
+            b = {'op': 'build', 'gen': 'env', 'spec': spec, 'fault': None}
+            ops.append(b)
+            if exc:
+                ops.append(dict(b, fault={'kind': 'func', 'at': 1,
+                                          'exc': exc}))
+            ops += [b] * (times - 1)
+        return ops
+    return st.lists(one, min_size=1, max_size=3).map(mk)
 
 
 def stages(ctx):
@@ -361,4 +420,6 @@ def stages(ctx):
               quick=200, thorough=1000),
         Stage('history_large', run_history, history_strategy(60),
               quick=10, thorough=100),
+        Stage('envdefs', run_history, env_history(), quick=150,
+              thorough=1500),
     ]
